@@ -178,6 +178,18 @@ CHECKS = {
         "table_integrate.pl (trapezoid recurrences from either end), and that each script writes the grid and flag arrays it read.",
    note="Not decided: shell wrappers (csg_table, csg_call), table_combine/table_scale/table_extrapolate, csg_resample-based differentiation and "
         "its inverse relation to integration (numerical), CsgFunctions.pm's parsing loops. No script is executed; perl only compiles them."),
+ "C16": dict(cat="other", ref="DESIGN.md section 4 C16 and section 9.6",
+   technique="dominance analysis over the clang CFG (the sort of the id source dominates the concatenation loop, which iterates the sorted sequence) + symbolic folding of the distance visitor, the generic visitor step, the breadth-first queue and singleNetwork with their effects decided by truth tables over the conditions they test; node-content table of BeadInfoToGraphNode_",
+   text="Decides the structural necessary conditions of the property, not the property: every function that assembles a structure/node id sorts "
+        "its source by content only (never by vertex number) on every path before concatenating, so the id cannot depend on hash order or on the "
+        "numbering; the node content built from a bead carries name and mass; GraphDistVisitor labels the start vertex 0 and a first-visited "
+        "vertex with the label of the other end of the discovering edge plus one and never relabels; exec explores exactly the unexplored end; "
+        "the breadth-first queue is first-in-first-out by level and only queues edges towards unexplored vertices; singleNetwork is the "
+        "conjunction (all vertices reached) and (no isolated node). Breaking any of these breaks the property for some graph.",
+   note="NOT decided (needs the dynamics of the traversal over arbitrary graphs, i.e. execution or model checking - a different family): that the "
+        "traversals reach every reachable vertex for every graph, that the labels are shortest-path hop counts for every edge order, connected-"
+        "component extraction (decoupleIsolatedSubGraphs), reduceGraph/expandGraph round trips, the choice among equal-degree start vertices in "
+        "findStructureId, BeadStructure::breakIntoStructures. A change confined to those parts is not seen by this check."),
  "C15": dict(cat="other", ref="DESIGN.md section 4 C15",
    technique="symbolic folding of eeInteractor::FillTholeInteraction (helpers and std::pair results inlined) with the inter-site distance as a positive atom and exact identities read off the folded tensor; rank gating of VSiteA<N>: every (rank a of A) x (rank b of B) block is accumulated exactly once for every instantiation and every rank of B",
    text="THIN partial claim: decides only the last clause of the property - the damped dipole-dipole interaction tensor is -3 l5 a a^T + l3 I "
@@ -187,9 +199,7 @@ CHECKS = {
         "point-charge-cluster limit, the field/energy derivative relation. These need path-sensitive evaluation of the if-constexpr/rank "
         "branches of VSiteA<N> or execution - outside this family. xtp is parsed, not built."),
 }
-NA = {
- "C16": "not applicable to static analysis: label independence, exact connected components, BFS hop counts and reduce/expand round trips are properties of traversal dynamics over arbitrary graphs (queue contents, unordered_map iteration order, tie-breaking among equal start vertices); no clause has a structural necessary condition that is decidable without being trivially true of the code or flagging order dependence that does not affect the set-valued results. Needs exhaustive execution over small graphs (a different family).",
-}
+NA = {}
 m = {"version": 1, "setup_cmd": "./setup.sh",
      "hooks": {"guard": "VOTCA_VERIF", "enable": "not used - the analysis reads unmodified sources; no hooks in /repo",
                "baseline_off_cmd": "cmake --build /repo/_build -j16 && ctest --test-dir /repo/_build -j8 --timeout 900",
